@@ -477,6 +477,19 @@ def transform_fn(text, spec):
             j += 1
         edits.append((last, last, '\n' + tail.rstrip() + '\n'))
 
+    # before the n-th `continue` / `break` / `return` keyword of the body
+    for (kw, n), txt in spec.get('before', {}).items():
+        occ = [mm.start() for mm in re.finditer(r'(?<![A-Za-z0-9_])%s\b' % kw, m) if sh.bopen < mm.start() < sh.bclose]
+        if n >= len(occ):
+            raise ExtractError('fn %s: %s ordinal %d not found (has %d)' % (sh.name, kw, n, len(occ)))
+        # only statement position is supported: the keyword must start a statement
+        p_ = occ[n] - 1
+        while p_ >= 0 and m[p_].isspace():
+            p_ -= 1
+        if m[p_] not in '{};':
+            raise ExtractError('fn %s: %s #%d is not in statement position' % (sh.name, kw, n))
+        edits.append((occ[n], occ[n], txt.rstrip() + '\n'))
+
     # loops
     lspec = spec.get('loops', {})
     lbody = spec.get('loopbody', {})
